@@ -170,6 +170,26 @@ pub fn run(opts: &Opts) -> Report {
                 }
             }
         }
+        // membership among doubles follows the language's `==` (IEEE: -0.0 == 0.0, NaN != NaN), not the bit pattern
+        let fl = [0.0f64, -0.0, f64::NAN, 1.5, f64::INFINITY, -1.5];
+        for x in fl {
+            for y in fl {
+                for z in [None, Some(7.25f64), Some(f64::NAN)] {
+                    let mut l = vec![CelValue::Float(y)];
+                    if let Some(z) = z {
+                        l.insert(0, CelValue::Float(z));
+                    }
+                    let hit = l.iter().any(|v| matches!(v, CelValue::Float(f) if *f == x));
+                    let lv = CelValue::List(l);
+                    let exp = Some(if hit { "b:1".to_string() } else { "b:0".to_string() });
+                    cx.case("in-list-double", "x in l", &[b("x", &CelValue::Float(x)), b("l", &lv)], exp.clone(), "x in l among doubles must agree with ==");
+                    cx.case("in-list-double-eq", "(x in [y]) == (x == y)", &[b("x", &CelValue::Float(x)), b("y", &CelValue::Float(y))], Some("b:1".into()), "membership in a singleton is equality");
+                    if let (Some(xl), Some(ll)) = (literal(&CelValue::Float(x)), literal(&lv)) {
+                        cx.case("in-list-double-literal", &format!("{} in {}", xl, ll), &[], exp, "literal x in l among doubles must agree with ==");
+                    }
+                }
+            }
+        }
         for (i, l1v) in lists.iter().enumerate().take(if opts.thorough { 40 } else { 14 }) {
             for l2v in lists.iter().skip(i % 3).step_by(3).take(12) {
                 let mut cat = l1v.clone();
